@@ -15,6 +15,7 @@ import NemoVerif.Lemmas.GroupExpandWhen
 import NemoVerif.Lemmas.GroupFlowVM
 import NemoVerif.Lemmas.GroupCoreVMCompose
 import NemoVerif.Lemmas.GroupCoreVMTemplate
+import NemoVerif.Lemmas.GroupCoreVMEvent
 namespace NemoVerif.C07
 open NemoVerif NemoVerif.Dnf NemoVerif.GroupExpand NemoVerif.GroupVM
 
@@ -265,6 +266,92 @@ theorem groupvm_is_corevm_partial_or (fuel : Nat) (s : CoreVM.VM) (f : CoreIndex
     ∃ s' i', CoreVM.runMembers (fuel + 2) f (CoreVM.matchingB e us brs) s = .ok () s' ∧ CoreVM.FlowAt s' f i' x cfg ∧ s'.r = s.r ∧
       CoreVM.hview i' = others ++ CoreVM.renderB (pe + 1) us (p1Brs e 0 brs).1 :=
   CoreVM.or_group_phase1 fuel s f i x cfg l mu pe e others us brs F hown C S hlen hnm hnd hv
+
+/-- **groupvm_is_corevm_partial (fork segment).**  The root head ACTIVE on `CatchPatternFailure fl; ForkHead u [l_1 … l_n]`, every
+    label followed by `match <plain event>`: CoreVM's `slide` hands back `n` new heads with fresh uids; advancing them in order
+    (`_advance_head_front(new_heads)`) leaves the root INACTIVE on the fork element and the new heads ACTIVE on their match
+    elements — the state `GroupVM.init` / `renderHeads` start from.  Any `n`. -/
+theorem groupvm_is_corevm_partial_fork (fuel : Nat) (s : CoreVM.VM) (f : CoreIndex.FUid) (h : CoreIndex.HUid) (i : CoreIndex.Inst)
+    (x : CoreVM.InstX) (cfg : CoreVM.FlowCfg) (hd : CoreIndex.Head) (fl u : String) (lps : List (String × Nat))
+    (H : CoreVM.HeadAt s f h i x cfg hd) (hact : hd.status = .active) (hlis : i.status.listening = true)
+    (hcatch : cfg.elements[hd.pos]! = .catchFail (some fl)) (hsz : hd.pos + 1 < cfg.elements.size)
+    (hfork : cfg.elements[hd.pos + 1]! = .fork u (lps.map (·.1)))
+    (hl : ∀ lp ∈ lps, cfg.label lp.1 = some lp.2 ∧ lp.2 ≠ 0 ∧ CoreVM.NotMatchAt cfg lp.2)
+    (hnews : ∀ lp ∈ lps, lp.2 + 1 < cfg.elements.size ∧ ∃ spec b n, cfg.elements[lp.2 + 1]! = .matchOp spec b ∧ CoreVM.PlainSpec spec n)
+    (hnd : ((CoreVM.hview i).map (·.1)).Nodup) (hfresh : ∀ m, m > s.r.nextUid → CoreVM.uidOf m ∉ i.headUids) :
+    ∃ s1 s2 i2 x', CoreVM.slide (fuel + 2) f h s = .ok (CoreVM.newKeys f s.r.nextUid lps.length) s1 ∧
+      CoreVM.runMembers (fuel + 1) f ((CoreVM.newKeys f s.r.nextUid lps.length).map (·.2)) s1 = .ok () s2 ∧
+      CoreVM.FlowAt s2 f i2 x' cfg ∧ x'.ctxOwner = x.ctxOwner ∧
+      CoreVM.hview i2 = (CoreVM.hview i).map (CoreVM.setCore h (hd.pos + 1) .inactive) ++
+        (CoreVM.newView s.r.nextUid (lps.map (·.2))).map (fun t => (t.1, t.2.1 + 1, t.2.2)) :=
+  CoreVM.fork_segment fuel s f h i x cfg hd fl u lps H hact hlis hcatch hsz hfork hl hnews hnd hfresh
+
+/-- **groupvm_is_corevm_partial (merge segment, the and-clause completes).**  After phase 1 exactly one member head is MERGING, the
+    others are ACTIVE (on their `match` or parked on `WaitForHeads`), the forking head `r` is INACTIVE.  CoreVM's `slide` on the MERGING
+    head: `r` continues ACTIVE on the `MergeHeads` element, every member head is deleted, `[r]` is handed back — `GroupVM.mergeStep
+    (.member 0 j)` of a group without or-level (`done := true`, no head of the group left).  Any clause size. -/
+theorem groupvm_is_corevm_partial_merge (fuel : Nat) (s : CoreVM.VM) (f : CoreIndex.FUid) (i : CoreIndex.Inst) (x : CoreVM.InstX)
+    (cfg : CoreVM.FlowCfg) (l mu : String) (pe n fp : Nat)
+    (r : CoreIndex.HUid) (us : List (CoreIndex.HUid × Nat)) (ms : List (Nat × MLoc)) (j : Nat) (uj : CoreIndex.HUid × Nat) (a : Nat)
+    (F : CoreVM.FlowAt s f i x cfg) (C : CoreVM.ClauseShape cfg l mu pe n)
+    (hv : CoreVM.hview i = (r, fp, CoreIndex.HeadStatus.inactive) :: CoreVM.renderU (pe + 1) us ms)
+    (hlen : us.length = ms.length) (hndu : (r :: us.map (·.1)).Nodup)
+    (hju : us[j]? = some uj) (hjm : ms[j]? = some (a, MLoc.merging))
+    (hone : ∀ j' m', ms[j']? = some m' → j' ≠ j → m'.2 = MLoc.atWait ∨ m'.2 = MLoc.atMatch)
+    (hfu : OMap.lookup mu x.forkUids = some r)
+    (hhx : ((OMap.lookup (f, r) s.r.hx).getD {}).childHeadUids = us.map (·.1))
+    (hleaf : ∀ c ∈ us.map (·.1), ((OMap.lookup (f, c) s.r.hx).getD {}).childHeadUids = [])
+    (hmu : mu ∉ us.map (·.1)) (hfp : fp ≠ pe + 2) :
+    ∃ s' i' x', CoreVM.slide (fuel + 4) f uj.1 s = .ok [(f, r)] s' ∧ CoreVM.FlowAt s' f i' x' cfg ∧ x'.ctxOwner = x.ctxOwner ∧
+      CoreVM.hview i' = [(r, pe + 2, CoreIndex.HeadStatus.active)] ∧ s'.r.nextUid = s.r.nextUid :=
+  CoreVM.and_clause_completes fuel s f i x cfg l mu pe n fp r us ms j uj a F C hv hlen hndu hju hjm hone hfu hhx hleaf hmu hfp
+
+/-- **groupvm_is_corevm_partial (one event on a pure and-group, any size).**  Composition of the segments: between two events the
+    member heads are on their `match` elements or parked (`QMs ms`), the forking head `r` is INACTIVE.  Advancing the heads that wait
+    on `match e` yields `GroupVM.p1Members e n [] ms`; if that completes the clause (`remMs … = []`), `slide` on the one MERGING head
+    merges and `r` continues behind the group, all member heads gone — `GroupVM.stepEvent` on a group without or-level, carried out
+    by CoreVM's own `slide`.  (What `runToCompletion` adds around it — finding the matching heads through the index, the bookkeeping
+    of `_advance_head_front`, the merging loop calling `slide` on the MERGING head — is not part of this theorem.) -/
+theorem groupvm_is_corevm_partial_and_event (fuel : Nat) (s : CoreVM.VM) (f : CoreIndex.FUid) (i : CoreIndex.Inst) (x : CoreVM.InstX)
+    (cfg : CoreVM.FlowCfg) (l mu : String) (pe fp e : Nat)
+    (r : CoreIndex.HUid) (us : List (CoreIndex.HUid × Nat)) (ms : List (Nat × MLoc))
+    (F : CoreVM.FlowAt s f i x cfg) (hown : x.ctxOwner = none) (C : CoreVM.ClauseShape cfg l mu pe ms.length)
+    (S : CoreVM.MembersShape cfg l pe us)
+    (hlen : us.length = ms.length) (hndu : (r :: us.map (·.1)).Nodup) (hq : QMs ms)
+    (hv : CoreVM.hview i = (r, fp, CoreIndex.HeadStatus.inactive) :: CoreVM.renderU (pe + 1) us ms)
+    (hfu : OMap.lookup mu x.forkUids = some r)
+    (hhx : ((OMap.lookup (f, r) s.r.hx).getD {}).childHeadUids = us.map (·.1))
+    (hleaf : ∀ c ∈ us.map (·.1), ((OMap.lookup (f, c) s.r.hx).getD {}).childHeadUids = [])
+    (hmu : mu ∉ us.map (·.1)) (hfp : fp ≠ pe + 2) :
+    ∃ s1 i1, CoreVM.runMembers (fuel + 3) f (CoreVM.matchingU e us ms) s = .ok () s1 ∧ CoreVM.FlowAt s1 f i1 x cfg ∧ s1.r = s.r ∧
+      CoreVM.hview i1 = (r, fp, CoreIndex.HeadStatus.inactive) :: CoreVM.renderU (pe + 1) us (p1Members e ms.length [] ms) ∧
+      (remMs (p1Members e ms.length [] ms) = [] → remMs ms ≠ [] →
+        ∃ (j : Nat) (uj : CoreIndex.HUid × Nat) (a : Nat), us[j]? = some uj ∧ (p1Members e ms.length [] ms)[j]? = some (a, MLoc.merging) ∧
+          ∃ s2 i2 x2, CoreVM.slide (fuel + 4) f uj.1 s1 = .ok [(f, r)] s2 ∧ CoreVM.FlowAt s2 f i2 x2 cfg ∧ x2.ctxOwner = x.ctxOwner ∧
+            CoreVM.hview i2 = [(r, pe + 2, CoreIndex.HeadStatus.active)]) :=
+  CoreVM.and_group_event fuel s f i x cfg l mu pe fp e r us ms F hown C S hlen hndu hq hv hfu hhx hleaf hmu hfp
+
+/-- **groupvm_is_corevm_partial (one event on a pure or-group of single atoms, any number of branches)**, when one branch matches the
+    event (always the case for distinct atoms): phase 1 (`GroupVM.p1Brs`) then the merge with a single candidate.  Several branches
+    MERGING in the same event (the same atom twice) need `random.choice` in `MergeHeads`; that case stays tied by execution. -/
+theorem groupvm_is_corevm_partial_or_event (fuel : Nat) (s : CoreVM.VM) (f : CoreIndex.FUid) (i : CoreIndex.Inst) (x : CoreVM.InstX)
+    (cfg : CoreVM.FlowCfg) (l mu : String) (pe fp e : Nat)
+    (r : CoreIndex.HUid) (us : List (CoreIndex.HUid × Nat)) (brs : List Br) (j : Nat) (uj : CoreIndex.HUid × Nat)
+    (F : CoreVM.FlowAt s f i x cfg) (hown : x.ctxOwner = none) (C : CoreVM.OrShape cfg l mu pe) (S : CoreVM.MembersShape cfg l pe us)
+    (hlen : us.length = brs.length) (hnm : CoreVM.noMulti brs = true) (hndu : (r :: us.map (·.1)).Nodup)
+    (hv : CoreVM.hview i = (r, fp, CoreIndex.HeadStatus.inactive) :: CoreVM.renderB (pe + 1) us brs)
+    (hju : us[j]? = some uj) (hjm : (p1Brs e 0 brs).1[j]? = some Br.merging)
+    (hone : ∀ j' m', (p1Brs e 0 brs).1[j']? = some m' → j' ≠ j → ∃ a, m' = Br.single a)
+    (hl1 : (p1Brs e 0 brs).1.length = brs.length)
+    (hfu : OMap.lookup mu x.forkUids = some r)
+    (hhx : ((OMap.lookup (f, r) s.r.hx).getD {}).childHeadUids = us.map (·.1))
+    (hleaf : ∀ c ∈ us.map (·.1), ((OMap.lookup (f, c) s.r.hx).getD {}).childHeadUids = [])
+    (hmu : mu ∉ us.map (·.1)) (hfp : fp ≠ pe + 1) :
+    ∃ s1 i1 s2 i2 x2, CoreVM.runMembers (fuel + 2) f (CoreVM.matchingB e us brs) s = .ok () s1 ∧ CoreVM.FlowAt s1 f i1 x cfg ∧
+      CoreVM.hview i1 = (r, fp, CoreIndex.HeadStatus.inactive) :: CoreVM.renderB (pe + 1) us (p1Brs e 0 brs).1 ∧
+      CoreVM.slide (fuel + 4) f uj.1 s1 = .ok [(f, r)] s2 ∧ CoreVM.FlowAt s2 f i2 x2 cfg ∧ x2.ctxOwner = x.ctxOwner ∧
+      CoreVM.hview i2 = [(r, pe + 1, CoreIndex.HeadStatus.active)] :=
+  CoreVM.or_group_event fuel s f i x cfg l mu pe fp e r us brs j uj F hown C S hlen hnm hndu hv hju hjm hone hl1 hfu hhx hleaf hmu hfp
 
 /-! ## the expanded element list -/
 
@@ -568,5 +655,99 @@ example : ∃ s' i', CoreVM.runMembers 3 "m" (CoreVM.matchingB 1 [("h1", 4), ("h
 -- test: what the theorem's conclusion says on the and-example: E0 arrives, h1 parks on WaitForHeads (position 14), h2 stays
 example : CoreVM.renderU 14 [("h1", 4), ("h2", 7)] (p1Members 0 2 [] [(0, .atMatch), (1, .atMatch)])
     = [("h1", 14, .active), ("h2", 7, .active)] := by decide
+
+/-! non-vacuity: concrete CoreVM states -/
+
+/-- before the fork: the root head `h0` ACTIVE on `CatchPatternFailure` (position 1) -/
+def exIxsRoot : CoreVM.IxS :=
+  (({} : CoreVM.IxS).apply (.addInst "m" "h0" none) (by decide)).apply (.setPos "m" "h0" 1 none) (by decide)
+def exVMRoot : CoreVM.VM := { ixs := exIxsRoot, r := { prog := { flows := [exCfgAnd] }, fx := [("m", exX)] } }
+def exInstRoot : CoreIndex.Inst := { uid := "m", status := .waiting, heads := [{ uid := "h0", pos := 1, status := .active, elem := none }] }
+
+theorem uidOf_ne_h0 (m : Nat) : CoreVM.uidOf m ≠ "h0" := by
+  intro e
+  have := congrArg String.toList e
+  simp only [CoreVM.uidOf, toString, String.toList_append] at this
+  cases this
+
+-- non-vacuity of `groupvm_is_corevm_partial_fork`: every hypothesis holds of the root head of `match E0() and E1()` before the fork
+example :=
+  groupvm_is_corevm_partial_fork 1 exVMRoot "m" "h0" exInstRoot exX exCfgAnd { uid := "h0", pos := 1, status := .active, elem := none }
+    "f" "u" [("l0", 3), ("l1", 6)]
+    { hi := rfl, hx := rfl, hc := rfl, hh := rfl, hlt := by decide, hst := by decide } rfl rfl rfl (by decide) rfl
+    (by
+      intro lp hlp
+      simp at hlp
+      rcases hlp with rfl | rfl
+      · exact ⟨rfl, by decide, CoreVM.notMatchAt_of _ _ _ (by decide) rfl rfl⟩
+      · exact ⟨rfl, by decide, CoreVM.notMatchAt_of _ _ _ (by decide) rfl rfl⟩)
+    (by
+      intro lp hlp
+      simp at hlp
+      rcases hlp with rfl | rfl
+      · exact ⟨by decide, exSpec "E0", false, "E0", rfl, rfl, rfl, rfl⟩
+      · exact ⟨by decide, exSpec "E1", false, "E1", rfl, rfl, rfl, rfl⟩)
+    (by decide)
+    (by intro m _ hm; simp [exInstRoot, CoreIndex.Inst.headUids] at hm; exact uidOf_ne_h0 m hm)
+
+/-- after phase 1 of `match E0() and E1()` with both events received: `h1` parked on the wait element, `h2` MERGING -/
+def exIxsMerging : CoreVM.IxS :=
+  (((((({} : CoreVM.IxS).apply (.addInst "m" "h0" none) (by decide)).apply (.setPos "m" "h0" 2 none) (by decide)).apply
+    (.setStatus "m" "h0" .inactive none) (by decide)).apply (.fork "m" "h1" none 14 none) (by decide)).apply
+    (.fork "m" "h2" none 15 none) (by decide)).apply (.setStatus "m" "h2" .merging none) (by decide)
+def exXFork : CoreVM.InstX := { exX with forkUids := [("u", "h0")] }
+def exVMMerging : CoreVM.VM :=
+  { ixs := exIxsMerging,
+    r := { prog := { flows := [exCfgAnd] }, fx := [("m", exXFork)], hx := [(("m", "h0"), { childHeadUids := ["h1", "h2"] })] } }
+def exInstMerging : CoreIndex.Inst := { uid := "m", status := .waiting, heads := [
+  { uid := "h0", pos := 2, status := .inactive, elem := none }, { uid := "h1", pos := 14, status := .active, elem := none },
+  { uid := "h2", pos := 15, status := .merging, elem := none }] }
+
+-- non-vacuity of `groupvm_is_corevm_partial_merge`
+example :=
+  groupvm_is_corevm_partial_merge 1 exVMMerging "m" exInstMerging exXFork exCfgAnd "e" "u" 13 2 2 "h0" [("h1", 4), ("h2", 7)]
+    [(0, .atWait), (1, .merging)] 1 ("h2", 7) 1
+    { hi := rfl, hx := rfl, hc := rfl } { hl := rfl, hsize := by decide, hw := rfl, hm := rfl } rfl rfl (by decide) rfl rfl
+    (by
+      intro j' m' h1 h2
+      rcases j' with _ | _ | j'
+      · simp at h1; subst h1; exact Or.inl rfl
+      · exact absurd rfl h2
+      · simp at h1)
+    rfl rfl (by intro c hc; simp at hc; rcases hc with rfl | rfl <;> rfl) (by decide) (by decide)
+
+
+/-- the state of `exVM` with the fork registered and the children recorded (as the fork segment leaves it) -/
+def exVMFull (cfg : CoreVM.FlowCfg) : CoreVM.VM :=
+  { ixs := exIxs, r := { prog := { flows := [cfg] }, fx := [("m", exXFork)], hx := [(("m", "h0"), { childHeadUids := ["h1", "h2"] })] } }
+
+-- non-vacuity of `groupvm_is_corevm_partial_and_event`: `match E0() and E1()`, both heads on their match elements, event E0
+example :=
+  groupvm_is_corevm_partial_and_event 1 (exVMFull exCfgAnd) "m" exInst exXFork exCfgAnd "e" "u" 13 2 0 "h0" [("h1", 4), ("h2", 7)]
+    [(0, .atMatch), (1, .atMatch)]
+    { hi := rfl, hx := rfl, hc := rfl } rfl { hl := rfl, hsize := by decide, hw := rfl, hm := rfl }
+    (by intro u hu; simp at hu; rcases hu with rfl | rfl <;> exact ⟨rfl, by decide⟩)
+    rfl (by decide) (by intro m hm; simp at hm; rcases hm with rfl | rfl <;> exact Or.inl rfl) rfl rfl rfl
+    (by intro c hc; simp at hc; rcases hc with rfl | rfl <;> rfl) (by decide) (by decide)
+
+-- non-vacuity of `groupvm_is_corevm_partial_or_event`: `match E0() or E1()`, event E1: the second branch completes the group
+example :=
+  groupvm_is_corevm_partial_or_event 1 (exVMFull exCfgOr) "m" exInst exXFork exCfgOr "e" "u" 14 2 1 "h0" [("h1", 4), ("h2", 7)]
+    [.single 0, .single 1] 1 ("h2", 7)
+    { hi := rfl, hx := rfl, hc := rfl } rfl { hl := rfl, hsize := by decide, hm := rfl }
+    (by intro u hu; simp at hu; rcases hu with rfl | rfl <;> exact ⟨rfl, by decide⟩)
+    rfl rfl (by decide) rfl rfl (by decide)
+    (by
+      intro j' m' h1 h2
+      rcases j' with _ | _ | j'
+      · have : m' = Br.single 0 := by
+          have : (p1Brs 1 0 [Br.single 0, Br.single 1]).1[0]? = some (Br.single 0) := by decide
+          rw [this] at h1; cases h1; rfl
+        exact ⟨0, this⟩
+      · exact absurd rfl h2
+      · have : (p1Brs 1 0 [Br.single 0, Br.single 1]).1.length = 2 := by decide
+        have : (p1Brs 1 0 [Br.single 0, Br.single 1]).1[j' + 2]? = none := List.getElem?_eq_none (by omega)
+        rw [this] at h1; cases h1)
+    (by decide) rfl rfl (by intro c hc; simp at hc; rcases hc with rfl | rfl <;> rfl) (by decide) (by decide)
 
 end NemoVerif.C07
